@@ -1,8 +1,8 @@
 /-
   C10 — specification, written from CSS 2.1 (§8.3.1 collapsing margins, §10.3.3 block-level
-  non-replaced elements in normal flow, §10.4 min/max-width, §10.6.3 auto heights, §10.7) and from
-  the property text, NOT from the code.  Everything here is decidable and is evaluated by the
-  driver on the IMPLEMENTATION's numbers (`judgeDoc`).
+  non-replaced elements in normal flow, §10.4 min/max-width, §10.6.3 auto heights, §10.7), CSS3-UI
+  box-sizing and from the property text, NOT from the code.  Everything here is decidable and is
+  evaluated by the driver on the IMPLEMENTATION's numbers (`judgeDoc`).
 -/
 import WR.C10.Model
 namespace WR.C10
@@ -13,6 +13,54 @@ def maxPos (ms : List Rat) : Rat := ms.foldl (fun acc m => if acc < m then m els
 def minNeg (ms : List Rat) : Rat := ms.foldl (fun acc m => if m < acc then m else acc) 0
 def collapseSpec (ms : List Rat) : Rat := maxPos ms + minNeg ms
 
+/-! ### percentages and box-sizing -/
+
+/-- a length or percentage against `ref`; `auto` counts 0 -/
+def specLen (d : Dim) (ref : Rat) : Rat :=
+  match d with
+  | .auto => 0
+  | .px v => v
+  | .pct p => ref * p / 100
+
+/-- content-box size for a specified size `v` under `box-sizing`, `pad`/`bor` being the sums of the
+    two paddings / borders of that axis; floored at 0 -/
+def specContent (sz : Sizing) (pad bor v : Rat) : Rat :=
+  match sz with
+  | .content => v
+  | .padding => if v - pad < 0 then 0 else v - pad
+  | .border => if v - (pad + bor) < 0 then 0 else v - (pad + bor)
+
+def specSize (sz : Sizing) (pad bor : Rat) (d : Dim) (ref : Rat) : MF :=
+  match d with
+  | .auto => .auto
+  | .px v => .val (specContent sz pad bor v)
+  | .pct p => .val (specContent sz pad bor (ref * p / 100))
+
+/-- used values before the width/height algorithms: margins, paddings (percentages against the
+    WIDTH of the containing block, also for top/bottom), content-box width/height and min/max.
+    A percentage height against an auto-height containing block computes to auto. -/
+def specResolve (cbW : Rat) (cbH : MF) (s : Style) : Used :=
+  let pl := specLen s.pl cbW
+  let pr := specLen s.pr cbW
+  let pt := specLen s.pt cbW
+  let pb := specLen s.pb cbW
+  let m (d : Dim) : MF := match d with
+    | .auto => .auto
+    | _ => .val (specLen d cbW)
+  { ml := m s.ml, mr := m s.mr, mt := m s.mt, mb := m s.mb,
+    pl := pl, pr := pr, pt := pt, pb := pb, bl := s.bl, br := s.br, bt := s.bt, bb := s.bb,
+    width := specSize s.sizing (pl + pr) (s.bl + s.br) s.width cbW,
+    minW := (specSize s.sizing (pl + pr) (s.bl + s.br) s.minW cbW).V,
+    maxW := (match specSize s.sizing (pl + pr) (s.bl + s.br) s.maxW cbW with
+      | .auto => none
+      | .val v => some v),
+    height := (match cbH, s.height with
+      | .auto, .pct _ => .auto
+      | .auto, d => specSize s.sizing (pt + pb) (s.bt + s.bb) d 0
+      | .val h, d => specSize s.sizing (pt + pb) (s.bt + s.bb) d h),
+    minH := specContent s.sizing (pt + pb) (s.bt + s.bb) s.minH,
+    maxH := s.maxH.map (specContent s.sizing (pt + pb) (s.bt + s.bb)) }
+
 /-! ### §10.3.3 / §10.4: horizontal used values (ltr) -/
 
 structure HUsed where
@@ -20,6 +68,13 @@ structure HUsed where
   mr : Rat
   w : Rat
   deriving Repr, DecidableEq
+
+/-- is the equation over-constrained for this width (all three values end up non-auto, after the
+    "auto margins are treated as zero when the sum is too large" rule)? -/
+def overConstrained (cb pb : Rat) (ml mr w : MF) : Bool :=
+  match w with
+  | .auto => false
+  | .val wv => (cb < pb + wv + ml.V + mr.V) || (!ml.isAuto && !mr.isAuto)
 
 /-- CSS 2.1 §10.3.3 for a given (possibly tentative) `width`, direction ltr.
     `pb` = border-left + padding-left + padding-right + border-right. -/
@@ -43,14 +98,17 @@ def css1033 (cb pb : Rat) (ml mr w : MF) : HUsed :=
     -- both margins auto: equal (centring)
     | .auto, .auto => { ml := (cb - pb - wv) / 2, mr := (cb - pb - wv) / 2, w := wv }
 
-/-- CSS 2.1 §10.4: tentative used width; if > max-width apply the rules again with max-width as the
-    computed width; if the result is < min-width apply them again with min-width. -/
-def cssWidth (cb pb minW : Rat) (maxW : Option Rat) (ml mr w : MF) : HUsed :=
+/-- CSS 2.1 §10.4: the computed width the §10.3.3 rules are finally applied with: the specified one;
+    max-width if the tentative used width exceeds it; min-width if the result is below it. -/
+def cssWidthArg (cb pb minW : Rat) (maxW : Option Rat) (ml mr w : MF) : MF :=
   let t := css1033 cb pb ml mr w
-  let t2 := match maxW with
-    | some m => if m < t.w then css1033 cb pb ml mr (.val m) else t
-    | none => t
-  if t2.w < minW then css1033 cb pb ml mr (.val minW) else t2
+  let a2 : MF := match maxW with
+    | some m => if m < t.w then .val m else w
+    | none => w
+  if (css1033 cb pb ml mr a2).w < minW then .val minW else a2
+
+def cssWidth (cb pb minW : Rat) (maxW : Option Rat) (ml mr w : MF) : HUsed :=
+  css1033 cb pb ml mr (cssWidthArg cb pb minW maxW ml mr w)
 
 /-! ### the judge: one violation = (rule, preorder index of the box, detail) -/
 
@@ -90,6 +148,9 @@ def VBox.botBarrier (v : VBox) : Bool := v.bb != 0 || v.pb != 0 || v.isRoot
 
 def VTree.v : VTree → VBox
   | .mk v _ => v
+
+def VTree.kids : VTree → List VTree
+  | .mk _ cs => cs
 
 mutual
   /-- `some ms`: the box's own top and bottom margins are adjoining (directly — no in-flow children,
@@ -144,9 +205,6 @@ mutual
         (match thru c with
           | some m => m
           | none => botGroup c) ++ ms
-end [] |> fun _ => m ++ ms
-              | none => botGroup c ++ ms))
-      | none => botList cs
 end
 
 /-- the configuration CSS 2.1 leaves contradictory: all children collapse through, the box has no
@@ -155,10 +213,24 @@ def ambiguousHere : VTree → Bool
   | .mk v cs =>
     !v.topBarrier && !v.botBarrier && v.minH != 0 && v.height == .auto && !cs.isEmpty && (thruList cs).isSome
 
+mutual
+  /-- does the chain "box → first in-flow child → …" that `topGroup` follows meet a box that
+      collapses through?  (classification of violations only) -/
+  def topThru : VTree → Bool
+    | .mk v cs => if v.topBarrier then false else topThruList cs
+  def topThruList : List VTree → Bool
+    | [] => false
+    | c :: _ =>
+      match thru c with
+      | some _ => true
+      | none => topThru c
+end
+
 /-- state of the walk over the children of one box -/
 structure Walk where
   prev : Option VTree       -- last child that does not collapse through
   pending : List Rat        -- margins of the collapsing-through children seen since
+  nested : Bool             -- one of those has children of its own (classification only)
   viols : List Viol
 
 def ratStr (q : Rat) : String :=
@@ -167,10 +239,13 @@ def ratStr (q : Rat) : String :=
 def expectEq (rule : String) (idx : Nat) (got want : Rat) (what : String) : List Viol :=
   if got = want then [] else [{ rule := rule, index := idx, detail := what ++ ": got " ++ ratStr got ++ ", CSS 2.1 gives " ++ ratStr want }]
 
+def flags (a b : Bool) : String :=
+  (if a then ":leading-through" else "") ++ (if b then ":nested-through" else "")
+
 /-- sibling / parent–first-child rules for one child `c` of `parent` -/
 def stepChild (parent : VBox) (w : Walk) (c : VTree) : Walk :=
   match thru c with
-  | some ms => { w with pending := w.pending ++ ms }
+  | some ms => { w with pending := w.pending ++ ms, nested := w.nested || !c.kids.isEmpty }
   | none =>
     let v :=
       match w.prev with
@@ -178,54 +253,65 @@ def stepChild (parent : VBox) (w : Walk) (c : VTree) : Walk :=
         if parent.topBarrier then
           -- first in-flow content below the parent's padding/border: separated from the content edge
           -- by the collapse of everything adjoining the child's top margin
-          expectEq "first-child-top" c.v.idx c.v.top (parent.contentTop + collapseSpec (w.pending ++ topGroup c))
+          expectEq ("first-child-top" ++ flags (topThru c) w.nested) c.v.idx c.v.top
+            (parent.contentTop + collapseSpec (w.pending ++ topGroup c))
             "top border edge of the first in-flow child below its parent's top padding/border"
         else
           -- parent/first-child margins are adjoining: the two top border edges coincide
-          expectEq "parent-first-child" c.v.idx c.v.top parent.top
+          expectEq ("parent-first-child" ++ flags (!w.pending.isEmpty || topThru c) w.nested) c.v.idx c.v.top parent.top
             "top border edge of a box whose top margin collapses with its parent's (must coincide with the parent's top border edge)"
       | some p =>
-        expectEq "sibling-gap" c.v.idx c.v.top (p.v.bottom + collapseSpec (botGroup p ++ w.pending ++ topGroup c))
+        expectEq ("sibling-gap" ++ flags (topThru c) w.nested) c.v.idx c.v.top
+          (p.v.bottom + collapseSpec (botGroup p ++ w.pending ++ topGroup c))
           "top border edge of a box after its previous in-flow sibling (bottom border edge + collapsed adjoining margins)"
-    { prev := some c, pending := [], viols := w.viols ++ v }
+    { prev := some c, pending := [], nested := false, viols := w.viols ++ v }
 
 /-- the auto-height rule of §10.6.3 (+ §10.7 min/max) for one box, after the walk over its children -/
-def heightCheck (t : VTree) (w : Walk) : List Viol :=
-  match t with
-  | .mk v _ =>
-    match v.height with
-    | .val hv => expectEq "fixed-height" v.idx v.h (clampH hv v.minH v.maxH) "used height of a box with a computed height"
-    | .auto =>
-      let contentBottom : Rat :=
-        match w.prev with
-        | some p =>
-          -- bottom border edge of the last in-flow child; its bottom margin is added only when it
-          -- does not collapse with the box's own bottom margin
-          p.v.bottom + (if v.botBarrier then collapseSpec (botGroup p ++ w.pending) else 0)
-        | none =>
-          -- no in-flow child with a height: margins that collapse through only count between two barriers
-          if v.topBarrier && v.botBarrier then v.contentTop + collapseSpec w.pending else v.contentTop
-      expectEq "auto-height" v.idx v.h (clampH (contentBottom - v.contentTop) v.minH v.maxH)
-        "used height of an auto-height box (must end at the bottom border edge of its last in-flow child)"
+def heightCheck (v : VBox) (selfThru : Bool) (w : Walk) : List Viol :=
+  match v.height with
+  | .val hv => expectEq "fixed-height" v.idx v.h (clampH hv v.minH v.maxH) "used height of a box with a computed height"
+  | .auto =>
+    let contentBottom : Rat :=
+      match w.prev with
+      | some p =>
+        -- bottom border edge of the last in-flow child; its bottom margin is added only when it
+        -- does not collapse with the box's own bottom margin
+        p.v.bottom + (if v.botBarrier then collapseSpec (botGroup p ++ w.pending) else 0)
+      | none =>
+        -- no in-flow child with a height: margins that collapse through only count between two barriers
+        if v.topBarrier && v.botBarrier then v.contentTop + collapseSpec w.pending else v.contentTop
+    expectEq ("auto-height" ++ flags (w.prev.isNone && !w.pending.isEmpty && !v.topBarrier) w.nested ++ (if selfThru then ":collapsed-through-box" else "")) v.idx v.h (clampH (contentBottom - v.contentTop) v.minH v.maxH)
+      "used height of an auto-height box (must end at the bottom border edge of its last in-flow child)"
+
+def walkChildren (parent : VBox) (w : Walk) : List VTree → Walk
+  | [] => w
+  | c :: cs => walkChildren parent (stepChild parent w c) cs
+
+def Walk.start : Walk := { prev := none, pending := [], nested := false, viols := [] }
 
 mutual
   /-- all stacking rules in the subtree -/
   def stackViols : VTree → List Viol
     | .mk v cs =>
-      if ambiguousHere (.mk v cs) then stackViolsList cs
-      else
-        let w := walkChildren v { prev := none, pending := [], viols := [] } cs
-        w.viols ++ heightCheck (.mk v cs) w ++ stackViolsList cs
+      (let w := walkChildren v Walk.start cs
+       w.viols ++ heightCheck v (thru (.mk v cs)).isSome w) ++ stackViolsList cs
   def stackViolsList : List VTree → List Viol
     | [] => []
     | c :: cs => stackViols c ++ stackViolsList cs
-  def walkChildren (parent : VBox) (w : Walk) : List VTree → Walk
-    | [] => w
-    | c :: cs => walkChildren parent (stepChild parent w c) cs
 end
 
-/-- `StackOK`: the decidable statement "this laid-out tree is stacked as CSS 2.1 prescribes" -/
-def StackOK (t : VTree) : Prop := stackViols t = [] ∧ t.v.top = t.v.mt   -- root: page content top is 0
+mutual
+  /-- some box of the tree is in the contradictory configuration -/
+  def ambiguous : VTree → Bool
+    | .mk v cs => ambiguousHere (.mk v cs) || ambiguousList cs
+  def ambiguousList : List VTree → Bool
+    | [] => false
+    | c :: cs => ambiguous c || ambiguousList cs
+end
+
+/-- `StackOK`: the decidable statement "this laid-out tree (root element at the top of the page
+    content area, y = 0) is stacked as CSS 2.1 prescribes" -/
+def StackOK (t : VTree) : Prop := stackViols t = [] ∧ t.v.top = t.v.mt
 
 instance (t : VTree) : Decidable (StackOK t) := by unfold StackOK; infer_instance
 
@@ -235,9 +321,11 @@ instance (t : VTree) : Decidable (StackOK t) := by unfold StackOK; infer_instanc
     percentages resolve against the containing block, the seven used values add up to its width and
     are the ones §10.3.3/§10.4 give. -/
 def hViols (idx : Nat) (cbW : Rat) (cbH : MF) (s : Style) (b : LBox) : List Viol :=
-  let u := resolvePercentages cbW cbH s      -- resolution of percentages and box-sizing (see `box_sizing` theorems)
+  let u := specResolve cbW cbH s
   let pbs := u.pl + u.pr + u.bl + u.br
-  let want := cssWidth cbW pbs u.minW u.maxW u.ml u.mr u.width
+  let arg := cssWidthArg cbW pbs u.minW u.maxW u.ml u.mr u.width
+  let want := css1033 cbW pbs u.ml u.mr arg
+  let oc := if overConstrained cbW pbs u.ml u.mr arg then ":overconstrained" else ""
   expectEq "padding-left" idx b.pl u.pl "padding-left" ++
   expectEq "padding-right" idx b.pr u.pr "padding-right" ++
   expectEq "padding-top" idx b.pt u.pt "padding-top" ++
@@ -246,12 +334,11 @@ def hViols (idx : Nat) (cbW : Rat) (cbH : MF) (s : Style) (b : LBox) : List Viol
   expectEq "border" idx b.bt u.bt "border-top" ++ expectEq "border" idx b.bb u.bb "border-bottom" ++
   expectEq "margin-top" idx b.mt u.mt.V "margin-top" ++
   expectEq "margin-bottom" idx b.mb u.mb.V "margin-bottom" ++
-  expectEq "width-equation" idx (b.ml + b.bl + b.pl + b.w + b.pr + b.br + b.mr) cbW
+  expectEq ("width-equation" ++ oc) idx (b.ml + b.bl + b.pl + b.w + b.pr + b.br + b.mr) cbW
     "margin-left + border-left + padding-left + width + padding-right + border-right + margin-right vs containing-block width" ++
   expectEq "width" idx b.w want.w "used width (10.3.3 + 10.4)" ++
   expectEq "margin-left" idx b.ml want.ml "used margin-left (10.3.3)" ++
-  expectEq "margin-right" idx b.mr want.mr "used margin-right (10.3.3)" ++
-  (if u.minW ≤ b.w ∨ True then [] else [])
+  expectEq ("margin-right" ++ oc) idx b.mr want.mr "used margin-right (10.3.3)"
 
 /-- x position: a block box's margin box starts at its containing block's content edge (ltr) -/
 def xViol (idx : Nat) (parentContentX : Rat) (b : LBox) : List Viol :=
@@ -268,7 +355,7 @@ mutual
   def judgeBox (cbW : Rat) (cbH : MF) (px : Rat) (isRoot : Bool) (idx : Nat) : Box → List LBox → Option JOut
     | .mk _ _, [] => none
     | .mk s cs, b :: rest =>
-      let u := resolvePercentages cbW cbH s
+      let u := specResolve cbW cbH s
       let hv := hViols idx cbW cbH s b ++ xViol idx px b
       match judgeList b.w u.height (b.x + b.ml + b.bl + b.pl) (idx + 1) cs rest with
       | none => none
@@ -292,8 +379,10 @@ def judgeDoc (pageW pageH : Rat) (root : Box) (impl : List LBox) : Option (List 
   match judgeBox pageW (.val pageH) 0 true 0 root impl with
   | some o =>
     if o.rest.isEmpty then
-      some (o.viols ++ stackViols o.tree ++
-        expectEq "root-top" 0 o.tree.v.top o.tree.v.mt "top border edge of the root element (page content top + margin-top)")
+      some (o.viols ++
+        (if ambiguous o.tree then [{ rule := "skipped-ambiguous", index := 0, detail := "" }]
+         else stackViols o.tree ++
+          expectEq "root-top" 0 o.tree.v.top o.tree.v.mt "top border edge of the root element (page content top + margin-top)"))
     else none
   | none => none
 
